@@ -51,9 +51,18 @@ def random_config(rng, schema, small=False):
         j0 = t // fc
         if rng.random() < 0.6:
             j0 = ((t // sc) * sc) // fc - rng.randint(1, nw - 1)   # a subdirectory boundary inside the modelled windows
+        special = []
+        if not small and rng.random() < 0.25:
+            # low absolute indices: a power of ten (where the number of digits of the sample index changes) inside a
+            # middle window, so that one file holds sample names of different lengths
+            P = 10 ** rng.randint(1, 11)
+            jP = (P * d // n) // fc
+            j0 = max(0, jP - rng.randint(1, max(1, nw - 2)))
+            special = [P - 2, P - 1, P, P + 1]
         cfg = md.MdConfig(n, d, fc, sc, j0, nw, schema)
         if cfg.bound[-1] < 6 or cfg.bound_real[-1] >= 2**62:
             continue
+        cfg.special = [x - cfg.base for x in special if 0 <= x - cfg.base < cfg.bound[-1]]
         return cfg
     raise md.DriverError("no configuration found")
 
@@ -194,6 +203,9 @@ def next_indices(rng, cfg, top, N):
             cands += [nb, nb, nb + 1, nb - 1 if nb - 1 > cur else nb]
             cands += [rng.choice(later), rng.choice(later) + rng.choice([0, 1, -1])]
         cands.append(rng.randint(cur + 1, limit))
+        sp = [x for x in getattr(cfg, "special", []) if x > cur]
+        if sp:
+            cands += [sp[0], sp[0], sp[0]]
         k = rng.choice([c for c in cands if cur < c <= limit] or [cur + 1])
         out.append(k)
         cur = k
